@@ -17,7 +17,7 @@ for pid in sorted(PROPS):
         evidence_file='/verif/evidence/%s.json' % pid,
         replay_cmd_template='./verif replay {path}',
         engine='verif',
-        level_claimed=dict(category='proof', text=m.get('text', P.get('scope', '')), design_ref=m.get('design_ref', 'DESIGN.md §4 ' + pid)),
+        level_claimed=dict(category=m.get('category', 'proof'), text=m.get('text', P.get('scope', '')), design_ref=m.get('design_ref', 'DESIGN.md §4 ' + pid)),
         level_note=m.get('note', ''),
         technique=m.get('technique', 'contract-based deductive verification: step contracts on the real functions discharged by Kani/CBMC (bit-precise, full symbolic domain) and Verus/Z3 on mechanically extracted text'),
     ))
